@@ -117,6 +117,17 @@ def call(q, x):
   return np.asarray(y.numpy() if hasattr(y, "numpy") else y, dtype=np.float32)
 
 
+def call_graph(q, x, training=None):
+  """The same call traced into a tf.function (the way a layer inside a compiled model runs it)."""
+  x = tf.constant(np.asarray(x, dtype=np.float32))
+
+  @tf.function
+  def f(t):
+    return q(t)
+  y = f(x)
+  return np.asarray(y.numpy(), dtype=np.float32)
+
+
 def as_np(v):
   if v is None:
     return None
